@@ -1,7 +1,7 @@
 #!/usr/bin/env python3
 """Evaluate the checks against a seeded change.
 
-usage: seedeval.py <ID> <mN> [--tier quick|thorough] [--skip-demo] [--checks C01,C09]
+usage: seedeval.py <ID> <mN> [--tier quick|thorough] [--skip-demo] [--checks C01,C09] [--round2|--round3]
 
 Takes /tmp/seed/<ID>/out/<mN>.patch (+ demo test, note) or, if already stored,
 /verif/seeded/<ID>-<mN>/, confirms the demonstration (fails with the change,
@@ -27,6 +27,7 @@ def main():
         if a == '--tier': tier = sys.argv[i+1]
         if a == '--checks': checks = sys.argv[i+1].split(',')
         if a == '--round2': srcroot, prefix = '/tmp/seed2', 'r2'
+        if a == '--round3': srcroot, prefix = '/tmp/seed3', 'r3'
     store = f'/verif/seeded/{pid}-{prefix}{mn}'
     src = f'{srcroot}/{pid}/out'
     os.makedirs(store, exist_ok=True)
